@@ -28,12 +28,12 @@ template<> struct Elem<Pod24> {
     static Pod24 make(int64_t v) {
         Pod24 p;
         p.a = v;
-        p.b = (int32_t) (v * 3 + 1);
+        p.b = (int32_t) ((uint64_t) v * 3 + 1);
         for (int i = 0; i < 12; ++i) p.c[i] = (char) (v + i);
         return p;
     }
     static int64_t val(const Pod24 &p) {
-        if (p.b != (int32_t) (p.a * 3 + 1)) return INT64_MIN + 1;
+        if (p.b != (int32_t) ((uint64_t) p.a * 3 + 1)) return INT64_MIN + 1;   // (unsigned: garbage must not overflow here)
         for (int i = 0; i < 12; ++i) if (p.c[i] != (char) (p.a + i)) return INT64_MIN + 2;
         return p.a;
     }
